@@ -23,7 +23,6 @@ class C17(Prop):
         "NV.C17.relocate_roundtrip",
         "NV.C17.relocate_offsets_preserved",
         "NV.C17.switch_tables_sorted_after_patch",
-        "NV.C17.patch_roundtrip",
     ]
     witness_theorems = [
         "NV.C17.old_type_start_loop_wrong",
@@ -36,7 +35,7 @@ class C17(Prop):
               ("sizeofCompilerFunction", "sizeof(compiler_function_t)"),
               ("sizeofRuntimeFunction", "sizeof(runtime_function_u)")]
     const_headers = ["src/interpret.h", "lpc/program.h", "efuns_opcode.h"]
-    quick_n = 170
+    quick_n = 400
     thorough_n = 1500
     search_n = 200
     design_ref = "5/C17"
